@@ -10,6 +10,9 @@ META = {
                    "queue's lock across the unlocked primitive.",
     "not_decided": "FIFO linearizability under all interleavings",
 }
+
+META["explanation"] += " " + 'Also: decision tables (classes of the loaded / exchanged words) of first/next/splice in blocking and non-blocking form, DEST_EMPTY/NON_EMPTY decided by the append exchange, and the for_each iteration macros (witness unit).'
+META["technique"] = 'static analysis: atomic-step shape rules, decision tables over value classes of loaded words (no execution), def-use rules on results of linearising exchanges, iteration-macro witness rules over normalised LLVM IR'
 LIBS = ("cds", "memb")
 WOULDBLOCK = -1
 
